@@ -28,7 +28,7 @@ ASSUMPTIONS = [
 OUTSIDE = [
     "values mitmproxy accepts although the property calls them invalid (port -1 / 70000, host containing a space) are only "
     "required to be applied completely, not to be rejected",
-    "documents with more picks than the bound; trailers, port 70000 and <=3-pick documents on response-less / TCP flows are exercised in the thorough tier only",
+    "documents with more picks than the bound; trailers on flows whose trailers are None or non-empty, port 70000 and <=3-pick documents on response-less / TCP flows are exercised in the thorough tier only",
     "view.update() notification after the edit",
 ]
 ENCODED = [
@@ -83,6 +83,14 @@ def _menu(tier):
             ("", {"request": [("non-dict", 5)], "response": [("non-dict", "x")]}),
         )
     return m
+
+
+def _menu_trailers():
+    return _flatten(
+        ("request", {"trailers": HDR_KINDS[:2], "port": [("valid", 123), ("x", "x")], "foo": [("unknown-key", 1)]}),
+        ("response", {"trailers": HDR_KINDS[:2], "code": [("abc", "abc")]}),
+        ("", {"comment": [("valid", "edited")], "foo": [("unknown-key", 42)]}),
+    )
 
 
 def _menu_small():
@@ -169,7 +177,13 @@ def h_put(X, menu, K, flows):
 
     original = _strip(f.get_state())
     # an earlier, successful edit through the same endpoint (leaves flow.modified() == True)
-    if edited:
+    if edited == "emptied-trailers":
+        # what the UI sends when the last trailer of a message is deleted: the trailers become an empty Headers object
+        h._doc = {"request": {"trailers": []}, "response": {"trailers": []}} if kind == "http+response" else {"request": {"trailers": []}}
+        put(h, f.id)
+        X.check(f.request.trailers is not None and len(f.request.trailers) == 0, "C47/put/valid-edit-not-applied",
+                "preparatory edit {'request': {'trailers': []}} not applied")
+    elif edited:
         h._doc = {"comment": "first edit"}
         put(h, f.id)
         X.check(f.comment == "first edit", "C47/put/valid-edit-not-applied", "preparatory edit {'comment': ...} not applied")
@@ -234,6 +248,12 @@ def obligations(tier):
                     f"(valid and invalid ports, codes, header lists, contents, hosts, unknown keys) x {fl}",
              encoded=ENCODED, must_reach=reach, parallel_depth=3),
     ]
+    tmenu = _menu_trailers()
+    obs.append(Symx("put-atomic-emptied-trailers", lambda X: h_put(X, tmenu, 3, [("http+response", "emptied-trailers"), ("http-no-response", "emptied-trailers")]),
+                    bounds=f"every edit document of 1..3 picks in every order from a {len(tmenu)}-entry menu (trailers lists, ports, codes, "
+                           "unknown keys) x HTTP flow {with, without} response whose trailers an earlier accepted edit emptied "
+                           "(empty Headers object, not None)",
+                    encoded=ENCODED, must_reach=reach, parallel_depth=3))
     if quick:
         qmenu = _menu("quick")
         obs.append(Symx("put-atomic-other-flows", lambda X: h_put(X, qmenu, 2, FLOWS[2:]),
